@@ -83,4 +83,79 @@ Section P.
     - f_equal. apply run_one_results. exact Hc.
     - apply map_ext. intros p. apply run_one_results. exact Hc.
   Qed.
+  (* ---- files that change between runs ----
+     [ext c c'] : an allowed change (e.g. an append-only log growing by
+     whole lines); allowed changes keep a FOUND position where it is *)
+  Variable ext : content -> content -> Prop.
+  Hypothesis found_stable : forall c c' o,
+    ext c c' -> compute c = Some o -> compute c' = Some o.
+
+  Notation events := (run_events content results compute fallback search true
+                                 true ends_open).
+
+  Lemma set_file_consistent files k p c :
+    ext (files p) c -> cons_ files k -> cons_ (set_file content files p c) k.
+  Proof.
+    intros He Hc q o Hq. unfold set_file. destruct (q =? p) eqn:E.
+    - apply Z.eqb_eq in E. subst q. eapply found_stable; [exact He|].
+      apply Hc. exact Hq.
+    - apply Hc. exact Hq.
+  Qed.
+
+  Lemma events_consistent h : forall files k,
+    changes_ok content ext files h -> cons_ files k ->
+    cons_ (fst (events files k h)) (snd (events files k h)).
+  Proof.
+    induction h as [|[s|p c] r IH]; intros files k Hok Hk;
+      cbn [run_events changes_ok] in *.
+    - exact Hk.
+    - apply IH; [exact Hok|]. apply (steps_consistent files [s] k Hk).
+    - destruct Hok as [He Hok]. apply IH; [exact Hok|].
+      apply set_file_consistent; assumption.
+  Qed.
+
+  (* after any history of runs and allowed changes, a run gives what a
+     fresh process gives ON THE FILES AS THEY ARE NOW *)
+  Theorem history_independent_changing files h s :
+    changes_ok content ext files h ->
+    let '(files', k) := events files (init) h in
+    sres files' k s = sres files' (init) s.
+  Proof.
+    intros Hok.
+    pose proof (events_consistent h files (init) Hok (init_consistent files))
+      as Hc.
+    destruct (events files (init) h) as [files' k] eqn:E. cbn [fst snd] in Hc.
+    destruct s as [g p|g ps]; cbn [step_results run_mp fst].
+    - f_equal. apply run_one_results. exact Hc.
+    - apply map_ext. intros p. apply run_one_results. exact Hc.
+  Qed.
 End P.
+
+(* The allowed change used by the harness: an append-only, time-ordered log
+   growing by whole lines.  At line granularity the seek's answer is the
+   index of the first line whose timestamp is >= since. *)
+Section Growth.
+  Variable since : Z.
+  Definition in_window (l : option Z) : bool :=
+    match l with Some t => since <=? t | None => false end.
+
+  Fixpoint first_in (i : Z) (ls : list (option Z)) : option Z :=
+    match ls with
+    | [] => None
+    | l :: r => if in_window l then Some i else first_in (i + 1) r
+    end.
+
+  Definition grows (c c' : list (option Z)) : Prop := exists extra, c' = c ++ extra.
+
+  Lemma first_in_app i c extra o :
+    first_in i c = Some o -> first_in i (c ++ extra) = Some o.
+  Proof.
+    revert i. induction c as [|l r IH]; intros i; cbn [first_in app].
+    - discriminate.
+    - destruct (in_window l); [trivial|]. apply IH.
+  Qed.
+
+  Lemma growth_keeps_found c c' o :
+    grows c c' -> first_in 0 c = Some o -> first_in 0 c' = Some o.
+  Proof. intros [extra ->]. apply first_in_app. Qed.
+End Growth.
